@@ -472,11 +472,17 @@ func tryGenGlueCase(r *vh.Rand, id string) *gcase {
 		nchunks = len(chunks)
 	}
 	c.msg = m
-	switch r.Intn(4) {
+	switch r.Intn(8) {
 	case 0:
 		c.fail = "conn"
 	case 1:
 		c.fail = fmt.Sprintf("chunk%d", r.Intn(nchunks))
+	case 2:
+		c.fail = "resolve"
+	case 3:
+		c.fail = "breaker"
+	case 4:
+		c.fail = "jobs"
 	default:
 		c.fail = "none"
 	}
